@@ -610,3 +610,25 @@ func TestC01RaceConcurrent(t *testing.T) { c01conc.Check(t) }
 func TestC09RaceConcurrent(t *testing.T) { c09conc.Check(t) }
 
 func TestC14RaceLinearizable(t *testing.T) { c14.Check(t) }
+
+// The same programs with TWO restricted identities whose grants differ, judged as what they are for
+// C14: concurrent requests of different callers - each decided under its own grant - still fit one
+// sequential order. (Anything the access check shares between requests - a memo of the last pattern,
+// a pooled buffer - shows here.)
+var c14restricted = &h.Campaign[LinCase]{
+	Prop: "C14", Sub: "two-restricted-callers",
+	Rule:  "rapid: the programs of C01's concurrent sub-campaign (2-4 clients x 2-6 calls on {a, b}, client 0 the superuser) with the other clients calling as TWO restricted identities that hold different generated grants, slow audit writes so that their access checks overlap; each history decided by porcupine against the map model under each caller's own grant; under the race detector; non-trivial = overlapping calls on one name with a mutation; distinct by program",
+	Quick: 600, Thorough: 60000,
+	Gen: func(rt *rapid.T) LinCase {
+		c := c01conc.Gen(rt)
+		if c.Rules2 == nil {
+			c.Rules2 = genLinRules(rt)
+		}
+		return c
+	},
+	Run: runC14,
+}
+
+func TestC14RaceTwoRestrictedCallers(t *testing.T) { c14restricted.Check(t) }
+
+func init() { c14restricted.Register() }
